@@ -22,7 +22,8 @@ From Galene Require Import Model.Subscribe.
 From Galene Require Import Proofs.SubscribeSelect Proofs.SubscribeFrame Proofs.SubscribeInv
   Proofs.SubscribeStep Proofs.SubscribeHeap Proofs.SubscribeOwn Proofs.SubscribeOut
   Proofs.SubscribeProps Proofs.SubscribeTeardown Proofs.SubscribeExact Proofs.SubscribeFresh
-  Proofs.SubscribeSync Proofs.SubscribeWitness Proofs.SubscribePinned Proofs.SubscribeNeg.
+  Proofs.SubscribeSync Proofs.SubscribeWitness Proofs.SubscribePinned Proofs.SubscribeNeg
+  Proofs.SubscribeTeardownSent.
 Import ListNotations.
 
 (* ------------------------------------------------------------------ *)
@@ -125,15 +126,39 @@ Theorem C07_same_group_only_offers : forall w o m id lab rep src usr,
 Proof. exact same_group_offer. Qed.
 Print Assumptions C07_same_group_only_offers.
 
-(* teardown reaches everyone: at quiescence (every live client has served its
-   queue, no delayed push is pending) no live client holds a down stream whose
-   publisher stream has ended - whether it ended by close, replace, unpresent,
-   leave, kick or the end of the publisher's connection, in every interleaving.
-   PARTIAL with respect to the property text in one point: that the client was
-   SENT a `close` (or an offer carrying `replace`) when the stream was removed
-   is stated for each evaluation by C07_close_only_when / C07_offer_exact but
-   not as a theorem of its own (C07_teardown_full_statement). *)
-Theorem C07_teardown_partial : forall n ops,
+(* teardown reaches everyone, step by step: whenever a step removes a down
+   stream from a client that stays a live member of a group - whatever the
+   reason: the publisher closed or replaced the stream, lost `present`, left,
+   was kicked or disconnected, nothing of the stream is requested any more, or
+   the client's own abort / failed answer - that very step SENT the client a
+   `close` for that id or an offer whose `replace` field is that id.  (A client
+   that leaves its group or whose connection ends drops all its down streams
+   without being told: the two hypotheses on the state after the step.)
+   The one corner that needs more than the step itself: negotiate sends no
+   offer while an earlier offer of the same down connection is unanswered, and
+   the deferred renegotiation carries no `replace`; a push (u, replace r)
+   served in that state by a client that still held r would drop r silently.
+   Proofs/SubscribeTeardownSent.v excludes it by the queue order (QInv: the
+   pushes of u queued for one client carry r, .., r, 0, .., 0, then u's current
+   `replace`) and HInv (who holds the stream of u while a push (u, r) is
+   pending does not hold r); corner_reached (below) shows the state itself is
+   reachable. *)
+Theorem C07_teardown_sent : forall w o m id,
+  reachable w -> ok_op w o ->
+  get_down id (c_down (w_cl w m)) <> None ->
+  get_down id (c_down (w_cl (step w o) m)) = None ->
+  c_group (w_cl (step w o) m) <> None -> c_dead (w_cl (step w o) m) = false ->
+  sent w o m (OClose id) \/ exists i l s u, sent w o m (OOffer i l id s u).
+Proof. exact teardown_sent. Qed.
+Print Assumptions C07_teardown_sent.
+
+(* ... and at quiescence (every live client has served its queue, no delayed
+   push is pending) no live client holds a down stream whose publisher stream
+   has ended - whether it ended by close, replace, unpresent, leave, kick or
+   the end of the publisher's connection, in every interleaving.  (Formerly
+   C07_teardown_partial; with C07_teardown_sent the property text is covered:
+   C07_teardown_eventually combines the two.) *)
+Theorem C07_teardown_quiescent : forall n ops,
   ok_run (init n) ops ->
   let w := run (init n) ops in
   quiescentb w = true ->
@@ -144,15 +169,31 @@ Proof.
   exact (teardown_quiescent w (proj1 (reach_init n ops H)) (proj1 (proj2 (reach_init n ops H)))
                             (proj2 (proj2 (reach_init n ops H))) Hq).
 Qed.
-Print Assumptions C07_teardown_partial.
+Print Assumptions C07_teardown_quiescent.
 
-Definition C07_teardown_full_statement : Prop :=
-  forall w o m id,
-    reachable w -> ok_op w o ->
-    get_down id (c_down (w_cl w m)) <> None ->
-    get_down id (c_down (w_cl (step w o) m)) = None ->
-    c_group (w_cl (step w o) m) <> None -> c_dead (w_cl (step w o) m) = false ->
-    sent w o m (OClose id) \/ exists i l s u, sent w o m (OOffer i l id s u).
+(* teardown reaches everyone, eventually: for every history ops1 ++ ops2 that
+   ends in a quiescent world, a client m that held a down stream with the id of
+   a stream that has ended by the end of the history (after ops1), is alive at
+   the end and has not sent `leave` during ops2 (so it is still a member of the
+   group it held the stream in: a live client leaves its group only by its own
+   `leave`), no longer holds it and was sent, by some step of ops2, a `close`
+   for that id or an offer with `replace` = that id.  Without the hypothesis on
+   `leave` the statement is false: leaveGroup drops the down streams without a
+   `close`, and the client may join the same group again. *)
+Theorem C07_teardown_eventually : forall n ops1 ops2 m id,
+  ok_run (init n) (ops1 ++ ops2) ->
+  let w1 := run (init n) ops1 in
+  let w := run (init n) (ops1 ++ ops2) in
+  quiescentb w = true ->
+  get_down id (c_down (w_cl w1 m)) <> None ->
+  ended w id ->
+  c_dead (w_cl w m) = false ->
+  Forall (fun o => forall g, o <> OpMsg m (MLeave g)) ops2 ->
+  get_down id (c_down (w_cl w m)) = None /\
+  exists p o s, ops2 = p ++ o :: s /\
+    (sent (run w1 p) o m (OClose id) \/ exists i l s' u, sent (run w1 p) o m (OOffer i l id s' u)).
+Proof. exact teardown_eventually. Qed.
+Print Assumptions C07_teardown_eventually.
 
 (* close only when: a `close` is sent to a client only as the answer to its own
    abort, or to its own answer (unknown stream, or the negotiation failed), or
@@ -290,6 +331,52 @@ Example C07_example :
   c_out (w_cl (run (init 3) good_close) 1) = [OOffer 1 1 0 0 1; OClose 1].
 Proof.
   split; [exact good_close_ok|]. split; [exact late_joiner_ok|]. vm_compute. repeat split.
+Qed.
+
+(* Non-vacuity of C07_teardown_sent / C07_teardown_eventually: concrete steps
+   that remove a down stream from a client that stays a live member, and what
+   they send.  (a) the publisher closed stream 1: the step of client 1 that
+   removes it appends `close 1`; (b) the publisher replaced stream 1 by stream
+   2: the step of client 1 that removes stream 1 appends the offer of stream 2
+   with replace = 1; both satisfy every hypothesis of C07_teardown_sent.  (c)
+   the corner state (a push with replace = 1 served while the offer of stream 2
+   is unanswered: nothing is sent) is reachable, with stream 1 already removed.
+   (d) the hypotheses of C07_teardown_eventually hold for good_close with
+   ops1 = good_history. *)
+Example C07_teardown_example :
+  (let w := run (init 3) close_prefix in
+   reachable w /\ ok_op w (OpPump 1) /\
+   get_down 1 (c_down (w_cl w 1)) <> None /\
+   get_down 1 (c_down (w_cl (step w (OpPump 1)) 1)) = None /\
+   c_group (w_cl (step w (OpPump 1)) 1) <> None /\ c_dead (w_cl (step w (OpPump 1)) 1) = false /\
+   c_out (w_cl (step w (OpPump 1)) 1) = c_out (w_cl w 1) ++ [OClose 1]) /\
+  (let w := run (init 3) replace_prefix in
+   reachable w /\ ok_op w (OpPump 1) /\
+   get_down 1 (c_down (w_cl w 1)) <> None /\
+   get_down 1 (c_down (w_cl (step w (OpPump 1)) 1)) = None /\
+   c_group (w_cl (step w (OpPump 1)) 1) <> None /\ c_dead (w_cl (step w (OpPump 1)) 1) = false /\
+   c_out (w_cl (step w (OpPump 1)) 1) = c_out (w_cl w 1) ++ [OOffer 2 1 1 0 1]) /\
+  (ok_run (init 3) (corner_prefix ++ [OpPump 1]) /\
+   let w := run (init 3) corner_prefix in
+   c_queue (w_cl w 1) = [APush 1 2 (Some 1) [KAudio; KVideo] 1] /\
+   map (fun d => (d_id d, d_havelocal d)) (c_down (w_cl w 1)) = [(2, true)] /\
+   c_out (w_cl (step w (OpPump 1)) 1) = c_out (w_cl w 1)) /\
+  (ok_run (init 3) (good_history ++ [OpMsg 0 (MClose 1); OpPump 1; OpPump 2]) /\
+   quiescentb (run (init 3) (good_history ++ [OpMsg 0 (MClose 1); OpPump 1; OpPump 2])) = true /\
+   get_down 1 (c_down (w_cl (run (init 3) good_history) 1)) <> None /\
+   ended (run (init 3) (good_history ++ [OpMsg 0 (MClose 1); OpPump 1; OpPump 2])) 1 /\
+   c_dead (w_cl (run (init 3) (good_history ++ [OpMsg 0 (MClose 1); OpPump 1; OpPump 2])) 1) = false /\
+   Forall (fun o => forall g, o <> OpMsg 1 (MLeave g)) [OpMsg 0 (MClose 1); OpPump 1; OpPump 2]).
+Proof.
+  split; [|split; [|split]].
+  - split; [exists 3, close_prefix; split; [apply ok_runb_sound; vm_compute|]; reflexivity|].
+    split; [exact I|]. vm_compute. repeat split; discriminate.
+  - split; [exists 3, replace_prefix; split; [apply ok_runb_sound; vm_compute|]; reflexivity|].
+    split; [exact I|]. vm_compute. repeat split; discriminate.
+  - destruct corner_reached as [H1 [H2 [H3 [_ [H5 _]]]]]. auto.
+  - split; [exact good_close_ok|]. split; [vm_compute; reflexivity|].
+    split; [vm_compute; discriminate|]. split; [exists 0; vm_compute; repeat split; repeat constructor|].
+    split; [vm_compute; reflexivity|]. repeat constructor; discriminate.
 Qed.
 
 (* Without unique ids label identity fails; without `replace` on the first
